@@ -104,6 +104,23 @@ def check(case, ctx):
     same_obj = build(spec).root
     if same_obj.fingerprint(live) != fp:
         raise Violation("fingerprint-not-deterministic", f"two builds disagree on the fingerprint of {o}")
+    for k in sorted(K)[:2]:
+        broken = U.dotted_del(o, k)
+        live.clear()
+        live.update(copy.deepcopy(broken))
+        try:
+            same_obj.fingerprint(live)       # usually fails: a reported key is gone
+        except Exception:
+            labels.add("failed-then-repaired-in-place")
+        live.clear()
+        live.update(copy.deepcopy(o))
+        try:
+            got_k, got_fp = same_obj.keys(live), same_obj.fingerprint(live)
+        except Exception as e:
+            raise Violation("keys-depend-on-history", f"after {k!r} was removed from and restored in the same dictionary object keys() raises {e!r}; o={o}")
+        if got_k != K or got_fp != fp:
+            raise Violation("keys-depend-on-history", f"after {k!r} was removed from and restored in the same dictionary object: keys {sorted(got_k)} "
+                                                      f"(fresh: {sorted(K)}), fingerprint {got_fp!r} (fresh: {fp!r}); o={o}")
     for pert in case["perturbations"]:
         if pert[0] == "inside" and K:
             key = sorted(K)[pert[1] % len(K)]
